@@ -36,7 +36,8 @@ CONF = dict(
           'between the tries of an interleaved-mode call: a measurement is reported only if a datagram was accepted), keyless NTS forgeries (identifier copied from the request, '
           'authenticator with nonce 16 and ciphertext length 0 - padded, followed by another field, or too short to be parsed -, ciphertext of 1..15 bytes, nonce length 0, a '
           'field that is only its header, a made-up 16-byte tag), responses whose receive and transmit time are each within 2^31 s of the request but more than 2^31 s apart from each other (30 years ahead / 40 years '
-          'back and next to the edges of the window, both orders), scion.twopath (MeasureClockOffsetSCION with two clients and two paths, each with a next hop of its own: one path '
+          'back and next to the edges of the window, both orders), genuine SCION responses (with NTS, with and without the packet authenticator) with bytes appended behind the UDP datagram - 8 filler bytes, a forged NTP header '
+          'echoing the origin timestamp with other times, padding: exactly as many bytes as the UDP length says, one less, one more, or the 56 bytes alone -, scion.twopath (MeasureClockOffsetSCION with two clients and two paths, each with a next hop of its own: one path '
           'rejected at once and the genuine response on the other 300 ms later, both genuine, both rejected: a reported offset lies between the accepted measurements); svc.authmodes (the real service\'s loadConfig / createClocks, run through harness/svclib and the wiring hook of /repo, on configuration '
           'texts with every list of up to three auth_modes over "nts", "spao" and an unknown string - every order, repetitions, the empty list - with and without a SCION daemon '
           'address, for a SCION host with an IP reference clock, a SCION reference clock and a SCION peer and for an IP-only host: the authentication flags and the NTS-KE fetcher '
